@@ -11,6 +11,7 @@ every request on the thread shares.
 | `Amb.observer`                | `thread_local! OBSERVER` (reactive_graph/src/graph/subscriber.rs)                              |
 | `Amb.arena`                   | `thread_local! MAP` under `sandboxed-arenas`; the one `static MAP` otherwise (owner/arena.rs): a world in which every owner has arena `0` is the global-arena configuration |
 | `World.owners`                | the owner forest: `OwnerInner.parent`, `OwnerInner.arena`; `req` = which request's root it hangs under (`Owner::new_root` per request in `build_response`, integrations/utils/src/lib.rs) |
+| shared context                | a request's `SsrSharedContext` (hydration data, `SerializedDataId`s) is a field of its root `Owner` inherited by every child (`Owner::shared_context`, `Owner::current_shared_context()`): "whose shared context" = `reqOf` of the observed owner; `build_response`'s `chunks` closure captures it under the root = a `Step.enter root` |
 | `CtxEntry`, `lookupCtx`, `useContext` | `OwnerInner.contexts`, `Owner::use_context` walking `parent` links (owner/context.rs)   |
 | `Simple.provide`              | `provide_context` on the current owner                                                         |
 | `Simple.alloc`, `Item`        | `ArenaItem::new`: insert into the current arena, `Owner::register` with the current owner (slotmap keys are unique per arena — modelled, not verified, by giving every item its own list cell) |
